@@ -57,7 +57,7 @@ class Taint:
         if k == "call":
             if SOURCE_CALL.search(o[1]): return True
             m = re.sub(r"::<[^:]*?>", "", o[1]).rsplit("::", 1)[-1]
-            if m in LOOKUP:       # the result is (a view of) what the receiver holds: a lookup by a hostile key yields own state, not hostile data
+            if m in LOOKUP or m.startswith("find") or m.startswith("position"):       # the result is (a view of) what the receiver holds: a lookup by a hostile key yields own state, not hostile data
                 return bool(o[2]) and self.is_tainted(f, o[2][0], depth + 1)
             return any(self.is_tainted(f, a, depth + 1) for a in o[2])
         if k == "phi": return any(self.is_tainted(f, a, depth + 1) for a in o[2])
